@@ -167,6 +167,8 @@ func (w *world) do(id int, o up.Op) (accepted bool, panicked any) {
 
 type viol struct{ kind, sig, detail string }
 
+const afterClear = " (after a clear)"
+
 // runSequence executes a history on a fresh bus in lock step with the model and
 // returns the violations (accept/reject differences, panics) and the model graph.
 func runSequence(hist []up.Op) ([]viol, *up.Graph) {
@@ -188,7 +190,7 @@ func runSequence(hist []up.Op) ([]viol, *up.Graph) {
 			if acc != want {
 				ctx := ""
 				if clears {
-					ctx = " (after a clear)"
+					ctx = afterClear
 				}
 				var sig string
 				if acc {
@@ -645,7 +647,10 @@ func history(nodes []node, alpha []up.Op, i int) []up.Op {
 }
 
 // bfs enumerates the distinct model states reachable within depth operations.
-func bfs(alpha []up.Op, depth int) []node {
+// The second result tells for which (state, operation) pairs the operation led to a
+// state first reached that way, i.e. whose representative history is state+operation.
+func bfs(alpha []up.Op, depth int) ([]node, map[int64]bool) {
+	created := map[int64]bool{}
 	nodes := []node{{parent: -1}}
 	graphs := []*up.Graph{up.NewGraph()}
 	seen := map[string]bool{graphs[0].Key(): true}
@@ -672,21 +677,44 @@ func bfs(alpha []up.Op, depth int) []node {
 				vrt.MachineryFault("reference model reached a cyclic graph %s", n)
 			}
 			seen[k] = true
+			created[int64(i)<<16|int64(oi)] = true
 			nodes = append(nodes, node{parent: int32(i), op: int16(oi), depth: nodes[i].depth + 1})
 			graphs = append(graphs, n)
 		}
 	}
-	return nodes
+	return nodes, created
 }
 
 func search(c *h.Check, cf config) {
 	names, depth := cf.Names, cf.Depth
 	alpha := alphabet(names)
-	nodes := bfs(alpha, depth)
+	nodes, created := bfs(alpha, depth)
+	var probes []up.Op // the well-formed registrations
+	for _, o := range alpha {
+		if o.Kind == "reg" && o.From != "" && o.To != "" && o.From != o.To && !o.NilFunc {
+			probes = append(probes, o)
+		}
+	}
 	completed := true
 	// the first time this worker meets a signature the case is shrunk to a 1-minimal one
 	seenSig := map[string]bool{}
 	violate := func(f found) {
+		// "(after a clear)" is kept in the signature only if the clears matter: if the
+		// history without its clear operations shows the same fault, that one is reported
+		if strings.HasSuffix(f.v.sig, afterClear) {
+			var noClear []up.Op
+			for _, o := range f.tc.History {
+				if o.Kind == "reg" {
+					noClear = append(noClear, o)
+				}
+			}
+			for _, g := range reproduce(termCase{f.tc.Mode, noClear}) {
+				if g.v.sig == strings.TrimSuffix(f.v.sig, afterClear) {
+					f = g
+					break
+				}
+			}
+		}
 		if !seenSig[f.v.sig] {
 			seenSig[f.v.sig] = true
 			f = minimise(f)
@@ -708,7 +736,7 @@ func search(c *h.Check, cf config) {
 		}
 		// (a) every operation of the alphabet from this state
 		if int(nodes[i].depth) < depth {
-			for _, o := range alpha {
+			for oi, o := range alpha {
 				seq := append(append([]up.Op(nil), hist...), o)
 				vs, _ := runSequence(seq)
 				c.Count("transitions", 1)
@@ -720,6 +748,28 @@ func search(c *h.Check, cf config) {
 				for _, v := range vs {
 					violate(found{v, termCase{"sequence", seq}})
 				}
+				// One-step look-ahead from this exact history. The state reached is merged
+				// with an equal model state that may have another representative history
+				// (always so after a rejected call, a no-op, most clears), and the registry
+				// has no dump to justify the merge; so every well-formed registration is
+				// also tried right after this transition. Skipped when seq is itself the
+				// representative history of a state that gets expanded.
+				if len(vs) > 0 || created[int64(i)<<16|int64(oi)] && int(nodes[i].depth)+1 < depth {
+					continue
+				}
+				for _, p := range probes {
+					pseq := append(append([]up.Op(nil), seq...), p)
+					pvs, _ := runSequence(pseq)
+					for _, v := range pvs {
+						violate(found{v, termCase{"sequence", pseq}})
+					}
+				}
+				n := int64(len(probes))
+				c.Count("transitions", n)
+				c.Count("lookahead_transitions", n)
+				c.Count("traces_validated_against_impl", n)
+				c.Count("evaluations", n)
+				c.Count("nontrivial", n)
 			}
 		}
 		// (b) termination in this state
@@ -1230,7 +1280,7 @@ func alphaSizes(th bool) []int {
 func main() {
 	h.Main("C16", "model_checking", []string{
 		"type names are drawn from small sets (see bounds.searches; the empty name is always an argument value too); sequences up to the stated depth",
-		"states are merged on the canonical reference graph (targets of each source in registration order); the registry has no other public observation than accept/reject and replay behaviour",
+		"states are merged on the canonical reference graph (targets of each source in registration order); the registry has no public dump, so wherever a transition ends in a merged state every well-formed registration is additionally tried from that exact history (one-step look-ahead); registry state that would need two further calls to show is not distinguished",
 		"non-termination is observed as more than 200 invocations of raw upcasters for a single stored event (an acyclic chain over <=4 names has <=3 steps); the harness's sentinel panic then unwinds ReplayWithUpcast",
 		"schedules: scheduling points at synchronisation operations, sequentially consistent memory, preemption bound as stated",
 	}, run, replay, func(tier string) map[string]any {
